@@ -41,13 +41,8 @@ Fixpoint stale_ok_along (h : hstate) (evs : list hevent) : bool :=
   | e :: r => stale_ok (h_step h e) && stale_ok_along (h_step h e) r
   end.
 
-(* ------------------------------------------------------------ known input class
-   (a decidable predicate of the event history; gen/c10.py known_classes mirrors
-   it and every run of the check compares the two on all generated histories)
-
-   C10-7: a session whose negotiated GR or LLGR families are not all among the
-   address families of the session (negotiate_gr / negotiate_llgr intersect the
-   two capabilities but not the negotiated MP families). *)
+(* ------------------------------------------------------------ helpers
+   (findings C10-1 .. C10-7 are repaired; no input class is excluded) *)
 
 Definition fams_of_gr (gr : option (list fam * N * bool)) : list fam :=
   match gr with Some (l, _, _) => l | None => [] end.
@@ -55,14 +50,6 @@ Definition fams_of_llgr (ll : option (list (fam * N))) : list fam :=
   match ll with Some l => map fst l | None => [] end.
 
 Definition subset_b (a b : list N) : bool := forallb (fun x => mem x b) a.
-
-Definition wf_event (e : hevent) : bool :=
-  match e with
-  | HUp fams gr ll => subset_b (fams_of_gr gr) fams && subset_b (fams_of_llgr ll) fams
-  | _ => true
-  end.
-
-Definition Known_C10_7 (evs : list hevent) : bool := existsb (fun e => negb (wf_event e)) evs.
 
 (* the disconnect reason does not allow helper mode for this session: the peer is
    admin-down, or GR was negotiated and the reason is not eligible (hard reset,
